@@ -113,8 +113,19 @@ def run(ctx):
                     elif tables.post_value(_resolve_local(g, e)) == _resolve_poly(g, z, e):
                         zero = True
             rb.expect(busy and zero, '%s:trigger-guard' % name, c.loc, '%s must broadcast only when BUSY and the pending count produced by its own update is 0' % name, note='%s: signal only when BUSY and own post-value == 0' % name.split('_taskpool_')[1])
-    rc = ctx.rule('R12.c', 'msg_dispatch: the notification reaches dispatch_taskpool only after the latest lookup was tested registered, monitored and not NOT_READY; otherwise it is delayed under the list lock', floor=5)
+    rc = ctx.rule('R12.c', 'msg_dispatch: the notification reaches dispatch_taskpool only after the latest lookup was tested registered, monitored and not NOT_READY; otherwise it is delayed under the list lock', floor=6)
     check_dispatch(ctx, u, rc, 'parsec_termdet_user_trigger_msg_dispatch', 'parsec_termdet_user_trigger_msg_dispatch_taskpool')
+    # taskpool_ready: the tasks are counted as one pending action BEFORE the taskpool becomes BUSY and the parked notifications are
+    # replayed: the replay takes that action away (set_nb_tasks(0) -> addto_runtime_actions(-1)) and the zero crossing is what signals
+    g = u.func('parsec_termdet_user_trigger_taskpool_ready'); ctx.functions_analysed.add(g.name)
+    inc = [e for e in g.calls() if e.fn and tables.is_rmw(e.fn) and tables.atomic_kind(e.fn) in ('fetch_inc', 'fetch_add') and e.args[0].s.endswith('nb_pending_actions')]
+    busy = [s_ for s_ in g.stores() if s_.lhs.k == 'mem' and s_.lhs.n == 'state' and 'BUSY' in ''.join(sorted(gcn(g, s_.rhs)))]
+    replay = g.calls('parsec_termdet_user_trigger_msg_dispatch_taskpool')
+    ok = len(inc) == 1 and len(busy) == 1 and len(replay) >= 1 and g.postdominates(inc[0].point, (g.entry, 0)) and g.precedes(inc[0], busy[0]) and all(g.ordered(busy[0], r) for r in replay) \
+        and all(g.ordered(inc[0], r) for r in replay)
+    rc.expect(ok, 'ready:count-then-busy-then-replay', inc[0].loc if inc else g.where(),
+              'taskpool_ready must count the tasks as a pending action, then become BUSY, then replay the parked notifications: replayed first, the -1 of the notification meets no +1, no zero crossing is seen and the termination is never signalled (nor forwarded)',
+              note='ready: nb_pending_actions++ -> state = BUSY -> replay of parked notifications')
 
 
 def _resolve_local(g, e):
